@@ -39,7 +39,7 @@ fn refcell_type(t: &mut syn::Type, rules: &mut Rules) {
         if let syn::PathArguments::AngleBracketed(ab) = &seg.arguments { if let Some(syn::GenericArgument::Type(inner)) = ab.args.first() { let inner = inner.clone(); *t = inner; *rules.dropped.entry("R:type".into()).or_default() += 1; } } } } }
 }
 
-pub struct BodyRules<'a> { pub rules: &'a mut Rules, pub unit: &'a Unit, pub features: &'a [String], pub tyname: Option<String> }
+pub struct BodyRules<'a> { pub rules: &'a mut Rules, pub unit: &'a Unit, pub features: &'a [String], pub tyname: Option<String>, pub fnpath: String }
 impl<'a> BodyRules<'a> {
     fn is_cell(&self, e: &Expr) -> bool {
         let s = norm(&e.to_token_stream().to_string());
@@ -113,6 +113,12 @@ impl<'a> VisitMut for BodyRules<'a> {
         visit_mut::visit_local_mut(self, l);
         // R: a local that owned a former cell and is mutated through it needs `mut`; a local bound to
         // `cell.borrow_mut()` becomes a `&mut` reborrow of the field
+        // R2: a shared borrow of a Copy element held across calls that need `&mut self` becomes a copy
+        if let syn::Pat::Ident(pi) = &l.pat {
+            if self.unit.copy_borrow.iter().any(|(f, v)| *f == self.fnpath && *v == pi.ident.to_string()) {
+                if let Some(init) = &mut l.init { if let Expr::Reference(rf) = &*init.expr { if rf.mutability.is_none() { let inner = (*rf.expr).clone(); *init.expr = inner; *self.rules.dropped.entry("R2:copy-borrow".into()).or_default() += 1; } } }
+            }
+        }
         if let syn::Pat::Ident(pi) = &mut l.pat {
             let is_self_lit = l.init.as_ref().map(|i| i.expr.to_token_stream().to_string().starts_with("Self {")).unwrap_or(false);
             if is_self_lit && !self.unit.refcell_fields.is_empty() && pi.mutability.is_none() { pi.mutability = Some(Default::default()); *self.rules.dropped.entry("R:let-mut".into()).or_default() += 1; }
